@@ -96,11 +96,16 @@ _SCHEMA = []
 
 
 def schema_ok(j):
-    """the JSON form against the published schema: real jsonschema natively; under shadows the three
-    property types the schema constrains"""
+    """the JSON form against the published schema: the real jsonschema whenever the timestamp text is
+    concrete (natively, and under shadows on the whole-second path where isoformat() has no symbolic
+    digits; a symbolic duration is replaced by a placeholder number); otherwise the three property
+    types the schema constrains"""
     ts, du, da = j.get("timestamp"), j.get("duration"), j.get("data")
-    if isinstance(ts, (sstr.SStr, sstr.SIsoStr)) or isinstance(du, (S.SRatio, S.SInt)):
+    if isinstance(ts, (sstr.SStr, sstr.SIsoStr)):
         return isinstance(ts, str) and isinstance(du, (int, float, S.SRatio, S.SInt)) and not isinstance(du, bool) and isinstance(da, dict)
+    if isinstance(du, (S.SRatio, S.SInt)):
+        j = dict(j)
+        j["duration"] = 0.5
     import json
     import jsonschema
     from aw_core.schema import get_json_schema
@@ -141,6 +146,48 @@ def h_json_text(x):
         ok2 = False
     obl.append(("copy-construct-equal-same-id", ok2))
     return obl, [sec, off, repr(eid)]
+
+
+ISO_OFFSETS = ["Z", "+00:00", "+05:30", "-03:30", "-00:30", "-13:59", "+14:00", "-14:00", "+0100", "-0930"]
+ISO_FRACTIONS = ["", ".5", ".123456", ".999999", ".000001", ",25"]
+ISO_DATES = ["2021-06-15T08:15:30", "1970-01-01 00:00:00", "2099-12-31T23:59:59", "2000-02-29T12:00:00"]
+
+
+def iso_reference(date, frac, off):
+    """independent reading of 'YYYY-MM-DD[T ]HH:MM:SS[.,f]<offset>' -> epoch microseconds"""
+    import calendar
+
+    y, mo, d = int(date[0:4]), int(date[5:7]), int(date[8:10])
+    h, mi, se = int(date[11:13]), int(date[14:16]), int(date[17:19])
+    secs = calendar.timegm((y, mo, d, h, mi, se, 0, 0, 0))
+    us = int((frac[1:] + "000000")[:6]) if frac else 0
+    if off == "Z":
+        om = 0
+    else:
+        digits = off[1:].replace(":", "")
+        om = (int(digits[0:2]) * 60 + int(digits[2:4] or 0)) * (-1 if off[0] == "-" else 1)
+    return (secs - om * 60) * 1000000 + us
+
+
+def h_iso_strings(x):
+    """timestamps given as ISO-8601 text (every offset / fraction / date of a pool, chosen by forking):
+    the event holds that instant floored to the millisecond, in UTC; symbolic duration"""
+    date = ISO_DATES[x.choice("date", len(ISO_DATES))]
+    frac = ISO_FRACTIONS[x.choice("frac", len(ISO_FRACTIONS))]
+    off = ISO_OFFSETS[x.choice("off", len(ISO_OFFSETS))]
+    d = x.zint("d", 0, D_MAX_US)
+    text = date + frac + off
+    want = iso_reference(date, frac, off)
+    e = Event(id=1, timestamp=text, duration=x.td_us(d), data={"k": 1})
+    obl = [("iso-string-instant-floored-to-ms", S.dt_us(e.timestamp) == want - want % 1000), ("iso-string-timestamp-is-utc", is_utc(e.timestamp)), ("duration-kept", S.td_us(e.duration) == d)]
+    e2 = Event(id=2, timestamp=datetime(2020, 1, 1, tzinfo=timezone.utc), duration=x.td_us(d), data={})
+    e2.timestamp = text
+    obl.append(("iso-string-through-setter", S.dt_us(e2.timestamp) == want - want % 1000))
+    j = e.to_json_dict()
+    obl.append(("json-validates-against-schema", schema_ok(j)))
+    back = Event(**j)
+    obl.append(("json-roundtrip", And(S.dt_us(back.timestamp) == want - want % 1000, S.td_us(back.duration) == d, back.id == 1)))
+    return obl, [text]
 
 
 def h_bad_duration(x):
@@ -230,6 +277,7 @@ def harnesses(tier):
     for k in ("timedelta", "int", "float-exact"):
         hs.append((Harness(PROP, "normalise-%s" % k, h_normalise, dict(durkind=k), "Event() with symbolic instant (us) + UTC offset; duration given as %s; setters; JSON / copy round trip (exact arithmetic)" % k), 300))
     hs.append((Harness(PROP, "json-text", h_json_text, {}, "JSON form rendered and parsed character by character: 4 concrete seconds x 4 offsets x 5 ids, symbolic microsecond and duration"), 600))
+    hs.append((Harness(PROP, "iso-string-inputs", h_iso_strings, {}, "timestamps given as ISO-8601 strings: %d dates x %d fractions x %d offsets (Z, positive, negative with minutes, compact), symbolic duration" % (len(ISO_DATES), len(ISO_FRACTIONS), len(ISO_OFFSETS))), 600))
     hs.append((Harness(PROP, "bad-duration", h_bad_duration, {}, "non-number durations raise TypeError"), 60))
     hs.append((Harness(PROP, "ieee-ms-floor", h_ms_floor_ieee, {}, "real _timestamp_parse with IEEE-rounded division: all 10^6 microsecond values at any date"), 600))
     hs.append((Harness(PROP, "ieee-float-duration", h_float_duration_ieee, {}, "Event(duration=float seconds) under IEEE rounding"), 600))
@@ -243,6 +291,7 @@ def meta(chk, tier):
     chk.bounds = [
         "instants: every integer microsecond in [1970, ~2103]; UTC offset every whole minute in [-14 h, +14 h] (symbolic)",
         "durations: timedelta any integer us in [-30 d, 30 d]; int seconds in [-1e7, 1e7]; float seconds: every real (hence every double) in [0, 30 d]",
+        "ISO-8601 string inputs: concrete pool of 4 dates x 6 fractions x 10 offsets (the real iso8601 regex runs on them), duration symbolic",
         "IEEE lemmas: rounded-real encoding of double arithmetic (round to nearest, ties either way), one query per binade where needed",
     ]
     chk.stubs = ["aw_core.models.int -> sym_int", "aw_core.models.timedelta -> sym_timedelta (documented modf / one rounded product / round-to-nearest algorithm in IEEE mode)",
